@@ -16,6 +16,7 @@ import (
 	"net/http"
 	"os"
 	"path/filepath"
+	"slices"
 	"sort"
 	"strings"
 	"sync"
@@ -104,6 +105,17 @@ type vc13Seq struct {
 	// HTTP URL.
 	IdxFile bool `json:"idx_file,omitempty"`
 
+	// FileSrc are further targets that come from a file URI: "svc", "adult",
+	// "danger", "newreg" (and "idx", which is the same as IdxFile).
+	FileSrc []string `json:"file_src,omitempty"`
+
+	// Lowered, if not empty, asks for one more restart at the end, with the
+	// size limit of each named target ("idx", "rl", "svc", "ssg", "ssy",
+	// "adult", "danger", "newreg") set relative to the size of its cache
+	// file: "limit-1" (the file is one octet smaller than the limit),
+	// "limit", "limit+1" or "3limit" (the file is three times the limit).
+	Lowered map[string]string `json:"lowered,omitempty"`
+
 	Rounds []vc13Round `json:"rounds"`
 }
 
@@ -189,12 +201,12 @@ type vc13World struct {
 	// probeUsed is the set of probe hosts already asked for.
 	probeUsed map[string]bool
 
-	// srcDir, idxSrc and idxURL are set if the rule-list index comes from a
-	// file URI: the directory and the path of the file that the harness
-	// publishes the index in, and its URI.
-	srcDir string
-	idxSrc string
-	idxURL string
+	// srcDir is the directory of the files of the targets that come from a
+	// file URI; src maps the path of such a target to its file and srcURLs
+	// to its URI.
+	srcDir  string
+	src     map[string]string
+	srcURLs map[string]string
 
 	// hashMax is the size limit of the hash lists.
 	hashMax int
@@ -290,8 +302,30 @@ func (p *vc13Probe) look(path, stage string) {
 		}
 	}
 
-	hf, err1 := vc13Hit(f, p.msgs, host)
-	hl, err2 := vc13Hit(f, p.msgs, vc13Last(s.name, ver))
+	var hf, hl bool
+	var err1, err2 error
+	limit := vc13WatchLimit()
+	x := vc13Go(func() {
+		hf, err1 = vc13Hit(f, p.msgs, host)
+		hl, err2 = vc13Hit(f, p.msgs, vc13Last(s.name, ver))
+	})
+	if !x.wait(limit) {
+		// The server is, of course, handling this very request; nothing
+		// else may be pending.  A lookup does not wait for the server.
+		if x.wait(5 * time.Second) {
+			// It came back after all.
+		} else {
+			vc13WatchHung.Store(true)
+			p.fail = fmt.Sprintf(
+				"while the body of %s was only partly delivered (%s), a lookup in list %q has not returned after %s: "+
+					"the filter stopped serving\ngoroutines parked inside the filtering code:\n%s",
+				path, stage, s.name, limit, vc13ParkedDump(),
+			)
+
+			return
+		}
+	}
+
 	p.nAsked++
 	if err1 != nil || err2 != nil || !hf || !hl {
 		p.fail = fmt.Sprintf(
@@ -365,22 +399,30 @@ func vc13NewWorld(
 	cacheOn bool,
 	timeout time.Duration,
 	hashMax int,
-	idxFile bool,
+	fileSrc []string,
 ) (w *vc13World) {
 	dir, err := os.MkdirTemp(baseDir, "cache-")
 	if err != nil {
 		t.Fatalf("harness: creating cache dir: %v", err)
 	}
 
-	srcDir, idxSrc, idxURL := "", "", ""
-	if idxFile {
+	srcDir := ""
+	src, srcURLs := map[string]string{}, map[string]string{}
+	if len(fileSrc) > 0 {
 		srcDir, err = os.MkdirTemp(baseDir, "src-")
 		if err != nil {
 			t.Fatalf("harness: creating source dir: %v", err)
 		}
 
-		idxSrc = filepath.Join(srcDir, "index-src.json")
-		idxURL = "file://" + idxSrc
+		for _, tg := range fileSrc {
+			p := vc13IdxPath
+			if tg != "idx" {
+				p = vc13SlotByName(tg).path
+			}
+
+			src[p] = filepath.Join(srcDir, "src-"+tg)
+			srcURLs[p] = "file://" + src[p]
+		}
 	}
 
 	w = &vc13World{
@@ -401,12 +443,12 @@ func vc13NewWorld(
 
 		probeUsed: map[string]bool{},
 
-		srcDir: srcDir,
-		idxSrc: idxSrc,
-		idxURL: idxURL,
+		srcDir:  srcDir,
+		src:     src,
+		srcURLs: srcURLs,
 	}
 
-	w.u, err = vc13NewUnits(dir, w.srv.URL(), w.el, timeout, cacheOn, hashMax, idxURL)
+	w.u, err = vc13NewUnits(dir, w.srv.URL(), w.el, timeout, cacheOn, hashMax, srcURLs, nil)
 	if err != nil {
 		w.close()
 		t.Fatalf("harness: creating units: %v", err)
@@ -427,16 +469,34 @@ func (w *vc13World) close() {
 	}
 }
 
-// vc13FileIdxScript maps the script of the index to what can happen to an
-// index that is a local file: it is there completely (whatever its size, no
-// limit applies to files), it is missing, it is empty, or it is cut short.
-func vc13FileIdxScript(sc vc13Script) (res vc13Script) {
-	res = vc13Script{Kind: sc.Kind, Fill: sc.Fill, CutPct: sc.CutPct, Flavor: sc.Flavor}
+// vc13FileScript maps the script of a target to what can happen to a target
+// that is a local file.  There are no transfer faults for a file.
+//
+// The two indexes are JSON, so a file that is missing, empty or cut short is a
+// file that cannot be decoded: the previous content stays.  A hash list is
+// plain text: a shorter file is just another complete list, and what the code
+// does with a missing or empty one (it takes it for an empty list) is a
+// matter of the operator's file, not of a failed update; so for hash lists
+// every transfer fault means "the file is left as it is".
+//
+// The size limit is documented as "the maximum size of the downloadable data";
+// a complete file of any size is a complete new version.  The oversize kinds
+// become complete files larger than the limit.
+func vc13FileScript(sc vc13Script, json bool) (res vc13Script) {
+	res = vc13Script{Kind: sc.Kind, Fill: sc.Fill, CutPct: sc.CutPct, Flavor: sc.Flavor, At: sc.At}
 	switch {
-	case vc13IsOK(sc.Kind), sc.Kind == vc13Empty, sc.Kind == vc13ShortCL, sc.Kind == vc13ChunkTrunc:
+	case vc13IsOK(sc.Kind):
 		// Keep.
 	case vc13IsOversize(sc.Kind):
 		res.Kind = vc13OKNew
+		res.At = "3limit"
+		if sc.Over == 1 || sc.Over == 7 {
+			res.At = "limit+1"
+		}
+	case !json:
+		res = vc13Script{Kind: vc13OKSame, Fill: sc.Fill}
+	case sc.Kind == vc13Empty, sc.Kind == vc13ShortCL, sc.Kind == vc13ChunkTrunc:
+		// Keep.
 	case sc.Kind == vc13HangBody:
 		res.Kind = vc13ShortCL
 	default:
@@ -446,11 +506,12 @@ func vc13FileIdxScript(sc vc13Script) (res vc13Script) {
 	return res
 }
 
-// publishIndexFile puts the planned index response into the source file of a
-// file-URI index and takes it out of the plan of the server.
-func (w *vc13World) publishIndexFile(resps map[string]*vc13Resp) {
-	r := resps[vc13IdxPath]
-	delete(resps, vc13IdxPath)
+// publishFile puts the planned response of a target that comes from a file
+// URI into its file and takes it out of the plan of the server.
+func (w *vc13World) publishFile(resps map[string]*vc13Resp, path string) {
+	r := resps[path]
+	delete(resps, path)
+	file := w.src[path]
 
 	var content []byte
 	switch r.kind {
@@ -462,19 +523,38 @@ func (w *vc13World) publishIndexFile(resps map[string]*vc13Resp) {
 		// Not the whole object, whatever the percentage says.
 		content = r.body[:max(1, min(r.cut, len(r.body)-3))]
 	default:
-		_ = os.Remove(w.idxSrc)
+		_ = os.Remove(file)
 
 		return
 	}
 
-	tmp := w.idxSrc + ".new"
+	tmp := file + ".new"
 	if err := os.WriteFile(tmp, content, 0o600); err != nil {
-		w.t.Fatalf("harness: writing index source: %v", err)
+		w.t.Fatalf("harness: writing source file: %v", err)
 	}
 
-	if err := os.Rename(tmp, w.idxSrc); err != nil {
-		w.t.Fatalf("harness: publishing index source: %v", err)
+	if err := os.Rename(tmp, file); err != nil {
+		w.t.Fatalf("harness: publishing source file: %v", err)
 	}
+}
+
+// onDisk returns what a restarted process finds for the target at path: its
+// source file if it comes from a file URI, its cache file otherwise.
+func (w *vc13World) onDisk(path, cacheFile string, last *vc13Obs) (b []byte) {
+	if f := w.src[path]; f != "" {
+		b, err := os.ReadFile(f)
+		if err != nil {
+			return nil
+		}
+
+		if b == nil {
+			b = []byte{}
+		}
+
+		return b
+	}
+
+	return last.Files[cacheFile]
 }
 
 // try records that a byte of version ver of the slot may be transmitted.
@@ -556,6 +636,19 @@ func (w *vc13World) plan(n int, rd *vc13Round) (resps map[string]*vc13Resp, info
 				r.body = sized(limit)
 				ui.at = sc.At
 				info.uncertain = true
+			case "limit+1", "3limit":
+				// Only a file can be complete and larger than the limit.
+				if w.src[path] == "" {
+					panic("vc13: a complete body over the limit for a target that is downloaded")
+				}
+
+				r.body = sized(limit + 1)
+				if sc.At == "3limit" {
+					r.body = sized(3 * limit)
+				}
+
+				ui.at = sc.At
+				info.uncertain = true
 			default:
 				r.body = fresh(sc.Fill, 0)
 			}
@@ -592,7 +685,7 @@ func (w *vc13World) plan(n int, rd *vc13Round) (resps map[string]*vc13Resp, info
 			panic("vc13: bad kind " + string(sc.Kind))
 		}
 
-		if ui.ok && len(r.body) >= limit && ui.at != "limit" {
+		if ui.ok && len(r.body) >= limit && (ui.at == "" || ui.at == "limit-1") {
 			panic("vc13: complete body is too large")
 		}
 
@@ -608,7 +701,7 @@ func (w *vc13World) plan(n int, rd *vc13Round) (resps map[string]*vc13Resp, info
 		resps[path] = r
 		info.urls[path] = ui
 
-		if ui.ok && valid && ui.at != "limit" {
+		if ui.ok && valid && (ui.at == "" || ui.at == "limit-1") {
 			w.pub[path] = r.body
 		}
 
@@ -645,7 +738,7 @@ func (w *vc13World) plan(n int, rd *vc13Round) (resps map[string]*vc13Resp, info
 
 			info.idx = w.idxInfos[string(ui.body)]
 			info.idxClass = info.idx.class
-			if info.idx.class == "valid" && ui.at != "limit" {
+			if info.idx.class == "valid" && (ui.at == "" || ui.at == "limit-1") {
 				w.pub[vc13IdxPath] = ui.body
 			}
 		}
@@ -737,7 +830,9 @@ func (w *vc13World) plan(n int, rd *vc13Round) (resps map[string]*vc13Resp, info
 // observe returns the verdict-level and the byte-level state; anything that is
 // not a complete version fails the case.
 func (w *vc13World) observe(u *vc13Units, where string, seq *vc13Seq) (o *vc13Obs) {
-	served, bad := u.observeServed(w.msgs, w.tried)
+	var served map[string]int
+	var bad string
+	w.watched("asking every list for its markers "+where, seq, func() { served, bad = u.observeServed(w.msgs, w.tried) })
 	if bad != "" {
 		w.t.Fatalf("C13 violated %s: %s\ncase: %s", where, bad, vc13JSON(seq))
 	}
@@ -928,6 +1023,12 @@ func (w *vc13World) checkRound(
 			cls(fmt.Sprintf("size:%s:%s:limit", name, form))
 			if name != "idx" {
 				cls(fmt.Sprintf("size-limit:%s", applied))
+			}
+		case "limit+1", "3limit":
+			cls("file-source-larger-than-limit")
+			cls(fmt.Sprintf("file-source:%s:%s", name, ui.at))
+			if name != "idx" {
+				cls("file-source-larger-than-limit:" + applied)
 			}
 		case "limit-1":
 			cls(fmt.Sprintf("size:%s:%s:limit-1", name, form))
@@ -1192,72 +1293,149 @@ func vc13FileSlot(file string) (name string) {
 
 // checkRestart loads a second set of units from the cache directory while the
 // server refuses everything, and compares what it serves with the files.
-func (w *vc13World) checkRestart(seq *vc13Seq, last *vc13Obs, cacheOn bool) (class string) {
+func (w *vc13World) checkRestart(seq *vc13Seq, last *vc13Obs, cacheOn bool, lowered map[string]string) (classes []string) {
 	t := w.t
 
 	w.srv.setPlan(map[string]*vc13Resp{}, &vc13Resp{kind: vc13S500, body: []byte("down\n")}, nil)
 	defer w.srv.endRound()
 
+	// What a restarted process finds for each target.
+	disk := map[string][]byte{vc13IdxPath: w.onDisk(vc13IdxPath, vc13IdxFile, last)}
+	for _, s := range vc13Slots {
+		disk[s.path] = w.onDisk(s.path, s.file, last)
+	}
+
+	// A restart with a lowered max_size: the limits are set relative to the
+	// sizes of the files that are there.  small is the set of targets whose
+	// file is certainly within its limit.
+	limits := map[string]int{}
+	relOf := func(tg string) (path string, size int) {
+		switch tg {
+		case "idx":
+			return vc13IdxPath, len(disk[vc13IdxPath])
+		case "rl":
+			return "/rl/", len(disk[vc13SlotByName("a").path])
+		default:
+			p := vc13SlotByName(tg).path
+
+			return p, len(disk[p])
+		}
+	}
+
+	for tg, rel := range lowered {
+		path, size := relOf(tg)
+		if size == 0 {
+			continue
+		}
+
+		switch rel {
+		case "limit-1":
+			limits[path] = size + 1
+		case "limit":
+			limits[path] = size
+		case "limit+1":
+			limits[path] = max(size-1, 1)
+		case "3limit":
+			limits[path] = max(size/3, 1)
+		default:
+			panic("vc13: bad relation " + rel)
+		}
+	}
+
+	limitOf := func(path string) (l int) {
+		key := path
+		if strings.HasPrefix(path, "/rl/") {
+			key = "/rl/"
+		}
+
+		if v, ok := limits[key]; ok {
+			return v
+		}
+
+		return vc13LimitOf(path, w.hashMax)
+	}
+
+	// A file that is not smaller than its limit may be refused as a whole by
+	// an implementation that limits files too; it must never be applied in
+	// part.  within tells whether the file of a target is certainly allowed.
+	within := func(path string) (ok bool) { return len(disk[path]) < limitOf(path) }
+	for path, b := range disk {
+		if b != nil && len(b) > limitOf(path) {
+			classes = append(classes, "file-source-larger-than-limit")
+			if lowered != nil {
+				classes = append(classes, "cache-file-larger-than-limit:"+path)
+			}
+		}
+	}
+
 	el := &vc13ErrLog{}
-	u, err := vc13NewUnits(w.dir, w.srv.URL(), el, w.timeout, cacheOn, w.hashMax, w.idxURL)
+	u, err := vc13NewUnits(w.dir, w.srv.URL(), el, w.timeout, cacheOn, w.hashMax, w.srcURLs, limits)
 	if err != nil {
 		t.Fatalf("harness: creating units for restart: %v", err)
 	}
 
-	// What must a restarted process serve?  Exactly what the files say.
+	// What must a restarted process serve?  Exactly what the files say: the
+	// complete version, or, where that is allowed, nothing.
 	want := map[string]int{}
+	must := map[string]bool{}
 	for _, s := range vc13Slots {
 		if s.kind == vc13KindHash {
-			want[s.name] = w.vers[s.file][string(last.Files[s.file])]
+			want[s.name] = w.vers[s.file][string(disk[s.path])]
+			must[s.name] = within(s.path)
 		}
 	}
 
-	idxOnDisk := last.Files[vc13IdxFile]
-	if w.idxSrc != "" {
-		// The index is not cached, it is read from its source every time.
-		idxOnDisk, _ = os.ReadFile(w.idxSrc)
-	}
+	idxInfo := w.idxInfos[string(disk[vc13IdxPath])]
+	ssg, ssy := vc13SlotByName("ssg"), vc13SlotByName("ssy")
 
-	idxInfo := w.idxInfos[string(idxOnDisk)]
 	// The storage can only come up if both indexes on disk are usable and
 	// both safe-search lists are on disk (the server refuses everything now,
 	// and a stall in the very first round may have left one of them out).
 	strgOK := idxInfo != nil && (idxInfo.class == "valid" || idxInfo.class == "partial") &&
-		w.svcOK[string(last.Files[vc13SvcFile])] &&
-		last.Files[vc13SlotByName("ssg").file] != nil && last.Files[vc13SlotByName("ssy").file] != nil
+		w.svcOK[string(disk["/svc"])] && disk[ssg.path] != nil && disk[ssy.path] != nil
+	strgWithin := within(vc13IdxPath) && within("/svc") && within(ssg.path) && within(ssy.path)
 
-	pnc := u.refreshAll(el, true, vc13CtxGenerous, false)
+	var pnc any
+	w.watched("the initial refresh of a fresh process over the cache directory", seq, func() {
+		pnc = u.refreshAll(el, true, vc13CtxGenerous, false)
+	})
+
 	msgs := el.take()
 	if pnc != nil {
 		// The only complete download that is known to make the loader panic
 		// is a service index with a null entry (the same finding as during a
 		// refresh: the file is replaced before its content is looked at).
-		if w.svcNil[string(last.Files[vc13SvcFile])] && w.st.Known(vc13KnownSvcNilPanic) {
-			return "restart:known-panic-on-null-service-entry"
+		if w.svcNil[string(disk["/svc"])] && w.st.Known(vc13KnownSvcNilPanic) {
+			return append(classes, "restart:known-panic-on-null-service-entry")
 		}
 
 		t.Fatalf("C13 violated at restart: a fresh process over the cache directory panics: %v\nservice index on disk: %s\ncase: %s",
-			pnc, vc13Short(last.Files[vc13SvcFile]), vc13JSON(seq))
+			pnc, vc13Short(disk["/svc"]), vc13JSON(seq))
 	}
 
 	if strgOK {
 		for _, s := range vc13Slots {
 			switch s.kind {
 			case vc13KindSvc, vc13KindSS:
-				want[s.name] = w.vers[s.file][string(last.Files[s.file])]
+				want[s.name] = w.vers[s.file][string(disk[s.path])]
+				must[s.name] = strgWithin
 			case vc13KindRule:
-				if len(idxInfo.urls[s.name]) > 0 && last.Files[s.file] != nil {
-					want[s.name] = w.vers[s.file][string(last.Files[s.file])]
+				if len(idxInfo.urls[s.name]) > 0 && disk[s.path] != nil {
+					want[s.name] = w.vers[s.file][string(disk[s.path])]
 				} else {
 					want[s.name] = 0
 				}
+
+				must[s.name] = strgWithin && within(s.path)
 			}
 		}
 	}
 
-	served, bad := u.observeServed(w.msgs, w.tried)
+	var served map[string]int
+	var bad string
+	w.watched("asking every list of a fresh process for its markers", seq, func() { served, bad = u.observeServed(w.msgs, w.tried) })
 	if bad != "" {
-		t.Fatalf("C13 violated at restart: %s\nerrors: %q\ncase: %s", bad, msgs, vc13JSON(seq))
+		t.Fatalf("C13 violated at restart (limits lowered: %v): %s\nerrors: %q\ncase: %s", lowered, bad, msgs, vc13JSON(seq))
 	}
 
 	names := make([]string, 0, len(want))
@@ -1267,20 +1445,28 @@ func (w *vc13World) checkRestart(seq *vc13Seq, last *vc13Obs, cacheOn bool) (cla
 	sort.Strings(names)
 
 	for _, name := range names {
-		if served[name] != want[name] {
-			s := vc13SlotByName(name)
-			t.Fatalf(
-				"C13 violated at restart: a fresh process over the cache directory serves version %d of %q, the cache file %q holds version %d (%s)\nerrors: %q\ncase: %s",
-				served[name], name, s.file, want[name], vc13Short(last.Files[s.file]), msgs, vc13JSON(seq),
-			)
+		if served[name] == want[name] || (!must[name] && served[name] == 0) {
+			continue
 		}
+
+		s := vc13SlotByName(name)
+		t.Fatalf(
+			"C13 violated at restart (limits lowered: %v): a fresh process serves version %d of %q, its file holds version %d "+
+				"(%s, size limit %d)\nerrors: %q\ncase: %s",
+			lowered, served[name], name, want[name], vc13Short(disk[s.path]), limitOf(s.path), msgs, vc13JSON(seq),
+		)
+	}
+
+	prefix := "restart"
+	if lowered != nil {
+		prefix = "restart-lowered"
 	}
 
 	if !strgOK {
-		return "restart:hash-only-invalid-index-on-disk"
+		return append(classes, prefix+":hash-only-invalid-index-on-disk")
 	}
 
-	return "restart:checked"
+	return append(classes, prefix+":checked")
 }
 
 // vc13RunSeq runs one sequence against the real code.
@@ -1297,7 +1483,12 @@ func vc13RunSeq(
 	seq *vc13Seq,
 	retryOnStall bool,
 ) (stalled bool) {
-	w := vc13NewWorld(t, st, msgs, baseDir, seq.CacheOn, vc13Timeout, vc13FaultHashMax, seq.IdxFile)
+	fileSrc := append([]string{}, seq.FileSrc...)
+	if seq.IdxFile && !slices.Contains(fileSrc, "idx") {
+		fileSrc = append(fileSrc, "idx")
+	}
+
+	w := vc13NewWorld(t, st, msgs, baseDir, seq.CacheOn, vc13Timeout, vc13FaultHashMax, fileSrc)
 	defer w.close()
 
 	var classes []string
@@ -1308,9 +1499,17 @@ func vc13RunSeq(
 		before.Served[s.name] = 0
 	}
 
-	if seq.IdxFile {
-		for i := range seq.Rounds {
-			seq.Rounds[i].Idx = vc13FileIdxScript(seq.Rounds[i].Idx)
+	for i := range seq.Rounds {
+		rd := &seq.Rounds[i]
+		for _, tg := range fileSrc {
+			switch tg {
+			case "idx":
+				rd.Idx = vc13FileScript(rd.Idx, true)
+			case "svc":
+				rd.S[tg] = vc13FileScript(rd.S[tg], true)
+			default:
+				rd.S[tg] = vc13FileScript(rd.S[tg], false)
+			}
 		}
 	}
 
@@ -1324,9 +1523,14 @@ func vc13RunSeq(
 		w.prewarm(n, seq)
 
 		resps, info := w.plan(n, rd)
-		if w.idxSrc != "" {
-			w.publishIndexFile(resps)
-			classes = append(classes, "idx-from-file", "idx-from-file:"+info.idxClass)
+		for _, tg := range fileSrc {
+			if tg == "idx" {
+				w.publishFile(resps, vc13IdxPath)
+				classes = append(classes, "idx-from-file", "idx-from-file:"+info.idxClass)
+			} else {
+				w.publishFile(resps, vc13SlotByName(tg).path)
+				classes = append(classes, "from-file:"+tg)
+			}
 		}
 
 		probe := w.newProbe(before, info)
@@ -1338,16 +1542,20 @@ func vc13RunSeq(
 			ctxTimeout = vc13Timeout
 		}
 
-		pnc := w.u.refreshAll(w.el, ri == 0, ctxTimeout, rd.Parallel)
+		var pnc any
+		w.watched(fmt.Sprintf("the refresh of round %d", ri), seq, func() {
+			pnc = w.u.refreshAll(w.el, ri == 0, ctxTimeout, rd.Parallel)
+		})
+
 		nLooks, probeFail := probe.finish()
 		if probe.asked() > 0 {
 			classes = append(classes, "probe:verdict-while-body-in-flight")
 		}
 
 		hits := w.srv.endRound()
-		if w.idxSrc != "" {
+		for p := range w.src {
 			// The file is read on every refresh.
-			hits[vc13IdxPath] = 1
+			hits[p] = 1
 		}
 
 		emsgs := w.el.take()
@@ -1383,7 +1591,10 @@ func vc13RunSeq(
 		vc13AgeFiles(w.dir)
 	}
 
-	classes = append(classes, w.checkRestart(seq, before, seq.CacheOn))
+	classes = append(classes, w.checkRestart(seq, before, seq.CacheOn, nil)...)
+	if len(seq.Lowered) > 0 {
+		classes = append(classes, w.checkRestart(seq, before, seq.CacheOn, seq.Lowered)...)
+	}
 	classes = append(classes, fmt.Sprintf("rounds:%d", len(seq.Rounds)))
 
 	key := ""
@@ -1402,17 +1613,24 @@ func vc13RunSeq(
 // prewarm queries the markers of version n (and of its alternative) of every
 // list before that version exists.
 func (w *vc13World) prewarm(n int, seq *vc13Seq) {
-	for _, s := range vc13Slots {
-		f := w.u.strg.ForConfig(context.Background(), vc13ConfFor(s))
-		for _, ver := range []int{n, n + vc13DupOffset} {
-			for _, h := range []string{vc13First(s.name, ver), vc13Last(s.name, ver)} {
-				hit, err := vc13Hit(f, w.msgs, h)
-				if err != nil || hit {
-					w.t.Fatalf("C13 violated before round %d: %q is filtered by list %q before any version with it was published "+
-						"(hit %t, error %v)\ncase: %s", n-1, h, s.name, hit, err, vc13JSON(seq))
+	fail := ""
+	w.watched(fmt.Sprintf("asking for hosts nobody asked for before, ahead of round %d", n-1), seq, func() {
+		for _, s := range vc13Slots {
+			f := w.u.strg.ForConfig(context.Background(), vc13ConfFor(s))
+			for _, ver := range []int{n, n + vc13DupOffset} {
+				for _, h := range []string{vc13First(s.name, ver), vc13Last(s.name, ver)} {
+					hit, err := vc13Hit(f, w.msgs, h)
+					if (err != nil || hit) && fail == "" {
+						fail = fmt.Sprintf("%q is filtered by list %q before any version with it was published (hit %t, error %v)",
+							h, s.name, hit, err)
+					}
 				}
 			}
 		}
+	})
+
+	if fail != "" {
+		w.t.Fatalf("C13 violated before round %d: %s\ncase: %s", n-1, fail, vc13JSON(seq))
 	}
 }
 
@@ -1535,6 +1753,21 @@ func vc13GenEntries(t *rapid.T, partial, typeErr bool) (es []vc13Entry) {
 	return es
 }
 
+// vc13SetScript sets the script of a target of a round.
+func vc13SetScript(rd *vc13Round, tg string, sc vc13Script) {
+	if tg == "idx" {
+		rd.Idx = sc
+	} else {
+		rd.S[tg] = sc
+	}
+}
+
+// vc13LowerTargets are the size limits that a restart can lower.
+var vc13LowerTargets = []string{"idx", "rl", "svc", "ssg", "ssy", "adult", "danger", "newreg"}
+
+// vc13FileTargets are the targets that can come from a file URI.
+var vc13FileTargets = []string{"idx", "svc", "adult", "danger", "newreg"}
+
 // vc13Targets are the things that can be hit by a fault in a round.
 var vc13Targets = []string{"idx", "a", "b", "c", "svc", "ssg", "ssy", "adult", "danger", "newreg"}
 
@@ -1542,6 +1775,21 @@ var vc13Targets = []string{"idx", "a", "b", "c", "svc", "ssg", "ssy", "adult", "
 func vc13GenSeq(t *rapid.T) (seq *vc13Seq) {
 	seq = &vc13Seq{CacheOn: rapid.Bool().Draw(t, "cache-on")}
 	seq.IdxFile = rapid.IntRange(0, 5).Draw(t, "idx-file") == 0
+	for _, tg := range []string{"svc", "adult", "danger", "newreg"} {
+		if rapid.IntRange(0, 7).Draw(t, "file-src-"+tg) == 0 {
+			seq.FileSrc = append(seq.FileSrc, tg)
+		}
+	}
+
+	if rapid.IntRange(0, 2).Draw(t, "lowered") == 0 {
+		seq.Lowered = map[string]string{}
+		for _, tg := range vc13LowerTargets {
+			rel := rapid.SampledFrom([]string{"", "", "limit-1", "limit", "limit+1", "3limit"}).Draw(t, "lowered-"+tg)
+			if rel != "" {
+				seq.Lowered[tg] = rel
+			}
+		}
+	}
 	nRounds := rapid.IntRange(1, 6).Draw(t, "rounds")
 	hangs := 2
 
@@ -1673,6 +1921,7 @@ var vc13RequiredClasses = []string{
 	"fault:content_longline", "content-junk:rule", "content-junk:ss",
 	"valid-entry-after-url-rejected-duplicate", "valid-entry-before-url-rejected-duplicate",
 	"idx-from-file:valid", "idx-from-file:fault", "idx-from-file:partial",
+	"file-source-larger-than-limit", "restart-lowered:checked", "from-file:svc", "from-file:adult",
 	"parallel", "cancel:seen-by-the-code", "index-empty", "svc-emptyrules-applied", "probe:verdict-while-body-in-flight",
 	"size-limit:applied",
 	"fault:oversize", "fault:oversize_chunked", "fault:oversize_close", "fault:short_cl", "fault:chunk_trunc",
@@ -1831,6 +2080,49 @@ func vc13GridSeqs() (seqs []*vc13Seq) {
 		mid := okRound()
 		mid.Entries = []vc13Entry{{T: "valid", L: "a"}, {T: "keybad", L: "b", U: f.name}, {T: "valid", L: "c"}}
 		seqs = append(seqs, three(mid))
+	}
+
+	// Every target that can come from a file URI does, with a complete file
+	// of the largest allowed size, of exactly the limit, one octet larger and
+	// three times the limit; a hash list from a file with a line its parser
+	// rejects.
+	for _, tg := range vc13FileTargets {
+		for _, at := range []string{"limit-1", "limit", "limit+1", "3limit"} {
+			mid := okRound()
+			vc13SetScript(&mid, tg, vc13Script{Kind: vc13OKNew, Fill: 3, At: at})
+			seq := three(mid)
+			seq.FileSrc = []string{tg}
+			seqs = append(seqs, seq)
+		}
+
+		if tg != "idx" && tg != "svc" {
+			mid := okRound()
+			mid.S[tg] = vc13Script{Kind: vc13OKNew, Fill: 6, Flavor: "longline"}
+			seq := three(mid)
+			seq.FileSrc = []string{tg}
+			seqs = append(seqs, seq)
+		}
+	}
+
+	// A restart with a lowered size limit: every limit, relative to the size
+	// of the cache file it applies to.
+	for _, tg := range vc13LowerTargets {
+		for _, rel := range []string{"limit-1", "limit", "limit+1", "3limit"} {
+			seqs = append(seqs, &vc13Seq{
+				CacheOn: true,
+				Rounds:  []vc13Round{okRound(), okRound()},
+				Lowered: map[string]string{tg: rel},
+			})
+		}
+	}
+
+	{
+		all := map[string]string{}
+		for _, tg := range vc13LowerTargets {
+			all[tg] = "3limit"
+		}
+
+		seqs = append(seqs, &vc13Seq{CacheOn: true, Rounds: []vc13Round{okRound(), okRound()}, Lowered: all})
 	}
 
 	// The index comes from a file URI: present, missing, empty, cut short, not
@@ -2020,6 +2312,16 @@ func TestVerifC13FaultGrid(t *testing.T) {
 		"valid-entry-after-url-rejected-duplicate", "valid-entry-before-url-rejected-duplicate",
 		"valid-entry-after-validate-rejected-duplicate", "valid-entry-before-validate-rejected-duplicate",
 	)
+
+	req = append(req, "file-source-larger-than-limit", "restart-lowered:checked")
+	for _, tg := range vc13FileTargets {
+		req = append(req, "file-source:"+tg+":limit+1", "file-source:"+tg+":3limit")
+	}
+
+	req = append(req, "cache-file-larger-than-limit:"+vc13IdxPath)
+	for _, s := range vc13Slots {
+		req = append(req, "cache-file-larger-than-limit:"+s.path)
+	}
 
 	req = append(req, "idx-from-file:valid", "idx-from-file:fault", "idx-from-file:partial", "idx-from-file:garbage")
 	req = append(req, "cancel:seen-by-the-code", "parallel", "index-empty", "svc-emptyrules-applied",
